@@ -119,7 +119,7 @@ type DB struct {
 	advisory map[int64]*advisoryLock
 	// deadlocks counts the deadlock errors raised so far
 	deadlocks int
-	waits    map[int64]int64 // top xid -> top xid it waits for
+	waits     map[int64]int64 // top xid -> top xid it waits for
 
 	clock time.Time
 	Hooks Hooks
